@@ -304,23 +304,20 @@ def strLe : Str → Str → Bool
 
 def nameKey (n : Node) : Str := match n.name with | .ok nm => nm.str | .error _ => []
 
-def insertByName (x : Node) : List Node → List Node
-  | [] => [x]
-  | y :: ys => if strLe (nameKey y) (nameKey x) then y :: insertByName x ys else x :: y :: ys
+/-- `sorted(l, key=lambda x: x.name)`: stable sort by code points (core `List.mergeSort` is stable) -/
+def sortedByName (l : List Node) : List Node := l.mergeSort fun a b => strLe (nameKey a) (nameKey b)
 
-/-- stable: equal keys keep their order (an element is inserted after the elements ≤ it) -/
-def sortedByName (l : List Node) : List Node := l.foldl (fun acc x => insertByName x acc) []
+/-- `f.statements[last].code.name == 'exit'` (False for an empty handler; AttributeError if the last element is not a Statement) -/
+def endsWithExit (stmts : List Node) : R Bool :=
+  match stmts.getLast? with
+  | none => .ok false
+  | some (.stmt _ code) => (code.name).map fun n => n == Name.s (S "exit")
+  | some _ => .error .type
 
 /-- the statements a script generator walks: all, except a final statement whose code is named 'exit' -/
-def bodyStmts (stmts : List Node) : R (List Node) :=
-  match stmts.reverse with
-  | [] => .ok []
-  | last :: revInit =>
-    match last with
-    | .stmt _ code => do
-      let n ← code.name
-      pure (if n == Name.s (S "exit") then revInit.reverse else stmts)
-    | _ => .error .type
+def bodyStmts (stmts : List Node) : R (List Node) := do
+  let e ← endsWithExit stmts
+  pure (if e then stmts.dropLast else stmts)
 
 def funcLingo (script : Script) (f : FuncDef) : R Str := do
   let head : Str := (if f.isMethod then S "method " else S "on ") ++ f.name
@@ -363,8 +360,9 @@ def lingoText (script : Script) : R Str := do
 
 /-- the statements of a handler after generation: every walked statement, the trailing `exit` untouched -/
 def afterLingoBody (stmts : List Node) : List Node :=
-  match bodyStmts stmts with
-  | .ok body => if body.length = stmts.length then afterLingoList stmts else afterLingoList body ++ stmts.drop body.length
+  match endsWithExit stmts with
+  | .ok true => afterLingoList stmts.dropLast ++ stmts.drop (stmts.length - 1)
+  | .ok false => afterLingoList stmts
   | .error _ => stmts
 
 def afterLingoFunc (f : FuncDef) : FuncDef :=
